@@ -999,3 +999,53 @@ def c03_m(ctx):
                   'the order is not computed when (and only when) its key is missing, or another '
                   'entry than this key\'s is returned', fn=eo, node=r_main[0] if r_main else
                   st[0])
+
+
+# Frozen guard table for the compilers and loaders: which test decides, and on which side, that
+# an instruction node / edge / value is added.  Rows confirmed by reading the code at the pinned
+# commit; the statement patterns are over expanded terms, so local renames do not move them.
+_C03_GUARDS = [
+    ('elfi.compiler:RandomStateCompiler.compile',
+     "compiled_net.add_edge('_random_state', _n, param='random_state')",
+     [("'_stochastic' in _d['attr_dict']", True)],
+     'the generator is wired to exactly the stochastic nodes'),
+    ('elfi.compiler:RandomStateCompiler.compile', "compiled_net.add_node('_random_state')",
+     [("'_stochastic' in _d['attr_dict']", True), ("compiled_net.has_node('_random_state')", False)],
+     'the generator node is created once, when a stochastic node needs it'),
+    ('elfi.compiler:AdditionalNodesCompiler.compile', 'compiled_net.add_edge(_i, _n, param=_p)',
+     [("_d['attr_dict'].get(_f)", True)],
+     'an instruction node is wired to exactly the nodes that declare the instruction'),
+    ('elfi.compiler:AdditionalNodesCompiler.compile', 'compiled_net.add_node(_i)',
+     [("_d['attr_dict'].get(_f)", True), ('compiled_net.has_node(_i)', False)],
+     'an instruction node is created once, when a node declares the instruction'),
+    ('elfi.compiler:OutputCompiler.compile', "store:_['output']",
+     [("'_output' in _s", True)], 'a constant value is compiled to an output'),
+    ('elfi.compiler:OutputCompiler.compile', "store:_['operation']",
+     [("'_output' in _s", False), ("'_operation' in _s", True)],
+     'an operation is compiled exactly for nodes without a constant value'),
+    ('elfi.compiler:ObservedCompiler.make_observed_copy', 'raise:0',
+     [('compiled_net.has_node(_o)', True)], 'an observed twin is never created twice'),
+    ('elfi.loader:ObservedLoader.load', 'compiled_net.nodes[_o].update(dict(output=_v))',
+     [('compiled_net.has_node(_o)', True)],
+     'an observation is loaded into the observed twin when the net has one'),
+    ('elfi.loader:RandomStateLoader.load', "store:compiled_net.nodes['_random_state'][_]",
+     [("compiled_net.has_node('_random_state')", True)],
+     'the generator is loaded only when the net has a generator node'),
+    ('elfi.loader:PoolLoader.load', "store:compiled_net.nodes[_]['output']",
+     [('context.pool is None', False), ('compiled_net.has_node(_n)', True), ('_n in _b', True)],
+     'a stored value is loaded exactly for nodes of the net that the stored batch contains'),
+    ('elfi.loader:PoolLoader.load', "compiled_net.graph['outputs'].add(_n)",
+     [('context.pool is None', False), ('compiled_net.has_node(_n)', True), ('_n in _b', False)],
+     'a store without this batch requests the node'),
+]
+
+
+@obligation('C03-n', 'T11', 'compilers and loaders add instruction nodes, edges and values on the '
+            'right side of their tests (frozen table of {} rows)'.format(len(_C03_GUARDS)),
+            floor=len(_C03_GUARDS),
+            necessary='a negated test wires the generator / batch size / meta data to the nodes '
+                      'that do not declare them (and not to those that do), or loads stored '
+                      'values into the wrong nodes')
+def c03_n(ctx):
+    from .base import check_guard_table
+    check_guard_table(ctx, _C03_GUARDS)
